@@ -17,7 +17,7 @@ for d in props/*/; do
     go build -o "bin/$n" "./props/$n" || echo "setup: build of $n failed"
   fi
 done
-for n in c06 c08; do
+for n in c06 c08 c09; do
   VERIF_BUILD_ONLY=1 engine/run_a.sh $(echo $n | tr a-z A-Z) quick -pkg osmpbf:decode.go,scanner.go,decode_data.go -sub sched >/dev/null 2>&1 || echo "setup: overlay build of $n/sched failed"
 done
 echo setup done
